@@ -89,6 +89,11 @@ func checkC16(c *ExecCase) (*ev.Failure, string) {
 		gwx.PostOp(gw, gwx.GQLRequest{Query: c.Op.Query, Variables: wv, OperationName: c.Op.OperationName}, 15*time.Second)
 		net.Reset()
 	}
+	// nor an earlier operation that differs only in the declared defaults of its variables
+	if q2, _, ok := withOtherDefaults(merged, c.Op.Query); ok {
+		gwx.PostOp(gw, gwx.GQLRequest{Query: q2, Variables: c.Op.Variables, OperationName: c.Op.OperationName}, 15*time.Second)
+		net.Reset()
+	}
 	resp := gwx.PostOp(gw, gwx.GQLRequest{Query: c.Op.Query, Variables: c.Op.Variables, OperationName: c.Op.OperationName}, 15*time.Second)
 	if resp.TimedOut {
 		return ev.Failf("hang", "no response"), ""
